@@ -28,4 +28,8 @@ KC_all == {"M", "mM", "uM", "molm3", "molcm3"}
 KC_two == {"mM", "molcm3"}
 KT_all == {"s", "min", "h", "ms"}
 KT_two == {"min", "ms"}
+Calls_all == AllCallKinds
+Calls_none == {}
+KRegs2 == {KRegSI, [length |-> "dm", mass |-> "g", time |-> "ms", current |-> "A", temperature |-> "K", amount |-> "umol"]}
+KRegs3 == KRegs2 \cup {[length |-> "cm", mass |-> "g", time |-> "min", current |-> "A", temperature |-> "K", amount |-> "mmol"]}
 =============================================================================
